@@ -432,6 +432,14 @@ func (ctx *Context) evaluate() {
 
 	var lastPop *VMValue
 	stackPop := func() *VMValue {
+		if e.top <= 0 {
+			// 栈为空说明字节码缺少操作数(如将下标/属性赋值当作值使用)，报错而不是越界
+			if ctx.Error == nil {
+				ctx.Error = errors.New("E3:无效的表达式")
+			}
+			lastPop = NewNullVal()
+			return lastPop
+		}
 		v := &e.stack[e.top-1]
 		e.top -= 1
 		lastPop = v
@@ -799,6 +807,10 @@ func (ctx *Context) evaluate() {
 			stackPush(val)
 
 		case typeStoreName:
+			if e.top <= 0 {
+				ctx.Error = errors.New("E3:无效的表达式")
+				return
+			}
 			v := e.stack[e.top-1].Clone()
 			name := code.Value.(string)
 
